@@ -19,6 +19,7 @@
 #include "myth_init_func.h"
 #include "myth_misc_func.h"
 #include "myth_worker_func.h"
+#include "myth_spinlock_func.h"
 
 /* allocate a node (internal or leaf) of a tls tree */
 static inline myth_tls_tree_node_t *
@@ -250,6 +251,7 @@ static inline void myth_tls_key_allocator_init(myth_tls_key_allocator_t * s) {
   }
   s->keys[myth_tls_n_keys - 1].next = 0;
   s->free = &s->keys[0];
+  myth_spin_init_body(&s->lock);
 }
 
 static inline void myth_tls_key_allocator_fini(myth_tls_key_allocator_t * s) {
@@ -269,6 +271,10 @@ static inline void myth_tls_fini() {
 static inline int
 myth_tls_key_allocator_alloc(myth_tls_key_allocator_t * s,
 			     myth_tls_destructor_fun_t destructor) {
+  /* the lock makes pop and push atomic with respect to each other; without it
+     a pop that has read ke->next can be overtaken by pop,pop,push(ke) and then
+     installs a stale next pointer (ABA), handing out a live key again */
+  myth_spin_lock_body(&s->lock);
   while (1) {
     /* try to pull the element from the free list */
     MYTH_VERIF_POINT(MYTH_VS_KEY_RD);
@@ -280,9 +286,11 @@ myth_tls_key_allocator_alloc(myth_tls_key_allocator_t * s,
 	/* mark the key as used */
 	ke->next = (myth_tls_key_entry_t *)-1;
 	ke->destructor = destructor;
+	myth_spin_unlock_body(&s->lock);
 	return ke - s->keys;
       }
     } else {
+      myth_spin_unlock_body(&s->lock);
       return -1;
     }
   }
@@ -300,6 +308,7 @@ myth_tls_key_allocator_dealloc(myth_tls_key_allocator_t * s, int key) {
     return (myth_tls_destructor_fun_t)-1;
   }
   myth_tls_destructor_fun_t f = ke->destructor;
+  myth_spin_lock_body(&s->lock);
   while (1) {
     /* try to push the cell to the free list */
     MYTH_VERIF_POINT(MYTH_VS_KEY_RD);
@@ -307,6 +316,7 @@ myth_tls_key_allocator_dealloc(myth_tls_key_allocator_t * s, int key) {
     ke->next = head;
     MYTH_VERIF_POINT(MYTH_VS_KEY_CAS);
     if (__sync_bool_compare_and_swap(&s->free, head, ke)) {
+      myth_spin_unlock_body(&s->lock);
       return f;
     }
   }
